@@ -206,7 +206,7 @@ fn op_strategy() -> impl Strategy<Value = Op> {
     ]
 }
 
-fn strat(max_len: usize) -> impl Strategy<Value = LzCase> {
+pub fn strat(max_len: usize) -> impl Strategy<Value = LzCase> {
     let mm = prop_oneof![3 => 5u8..=32, 2 => Just(20u8), 1 => Just(15u8), 1 => Just(5u8), 1 => Just(32u8)];
     let derived = (reference_strategy(max_len), prop::collection::vec(op_strategy(), 0..14), mm.clone()).prop_map(|(r, ops, mm)| {
         let t = apply(&r, &ops);
